@@ -545,7 +545,9 @@ class Component(CaselessDict):
 
     def __eq__(self, other):
         if not isinstance(other, Component):
-            return NotImplemented
+            # not NotImplemented: a dict would then compare itself with our
+            # properties and answer True for a component without subcomponents
+            return False
         if self.name != other.name:
             return False
         if len(self.subcomponents) != len(other.subcomponents):
